@@ -148,6 +148,18 @@ func (db *DB) reconstructSSTables() error {
 				return err
 			}
 
+			// a crash during a memstore flush leaves an incomplete sstable behind, its metadata is always written last.
+			// The WAL is only deleted after the flush was successful, so the data is still in there and the table can be removed.
+			metaStat, err := os.Stat(filepath.Join(p, sstables.MetaFileName))
+			if os.IsNotExist(err) || (err == nil && metaStat.Size() == 0) {
+				log.Printf("removing incomplete sstable in %s\n", p)
+				err = os.RemoveAll(p)
+				if err != nil {
+					return err
+				}
+				continue
+			}
+
 			reader, err := sstables.NewSSTableReader(
 				sstables.ReadBasePath(p),
 				sstables.ReadWithKeyComparator(db.cmp),
